@@ -1482,6 +1482,9 @@ class Program:
             an.hint(x, name.rsplit("::", 1)[0])
             k = {"is_some": 1, "is_none": 0, "is_ok": 0, "is_err": 1}[name.rsplit("::", 1)[1]]
             return T.bin("Eq", T.discr(x), T.const("isize", k), "isize")
+        comb = self._combinator(an, st, name, args)
+        if comb is not None:
+            return comb
         if name == "mem::size_of" and generics:
             sz = {"u8": 1, "i8": 1, "u16": 2, "i16": 2, "u32": 4, "i32": 4, "u64": 8, "i64": 8, "u128": 16, "i128": 16}.get(generics[0])
             if sz is not None:
@@ -1507,6 +1510,125 @@ class Program:
             return args[0]          # blanket impl for iterators: identity
         if name == "ops::Deref::deref" and nq.startswith("<&"):
             return self._val(an, st, args[0])
+        return None
+
+    # ---- Option / Result combinators by their defining match (closures and function pointers are applied symbolically) ----
+    def _combinator(self, an, st, name, args):
+        SOME = lambda v: T.agg("adt", "option::Option", 1, "Some", [v])
+        NONE = T.agg("adt", "option::Option", 0, "None", [])
+        OK = lambda v: T.agg("adt", "result::Result", 0, "Ok", [v])
+        ERR = lambda v: T.agg("adt", "result::Result", 1, "Err", [v])
+        if not (name.startswith("option::Option::") or name.startswith("result::Result::")) or not args:
+            return None
+        m = name.rsplit("::", 1)[1]
+        X = args[0]
+        if X.op in ("ref", "refval"):
+            return None
+        opt = name.startswith("option::")
+        good, bad = ("Some", "None") if opt else ("Ok", "Err")
+        pg = T.payload(X, good)
+        ap = lambda f, a: self.apply_fn(an, st, f, a)
+        if opt:
+            pb = None
+            keep_bad = NONE
+        else:
+            pb = T.payload(X, "Err")
+            keep_bad = ERR(pb)
+        wrap_good = SOME if opt else OK
+        r = None
+        if m == "ok" and not opt and len(args) == 1:
+            r = ((good, SOME(pg)), (bad, NONE))
+        elif m == "err" and not opt and len(args) == 1:
+            r = ((good, NONE), (bad, SOME(pb)))
+        elif m == "map" and len(args) == 2:
+            v = ap(args[1], [pg])
+            if v is not None:
+                r = ((good, wrap_good(v)), (bad, keep_bad))
+        elif m == "and_then" and len(args) == 2:
+            v = ap(args[1], [pg])
+            if v is not None:
+                r = ((good, v), (bad, keep_bad))
+        elif m == "map_err" and not opt and len(args) == 2:
+            v = ap(args[1], [pb])
+            if v is not None:
+                r = ((good, OK(pg)), (bad, ERR(v)))
+        elif m == "or_else" and len(args) == 2:
+            v = ap(args[1], [] if opt else [pb])
+            if v is not None:
+                r = ((good, wrap_good(pg)), (bad, v))
+        elif m == "map_or_else" and len(args) == 3:
+            d, v = ap(args[1], [] if opt else [pb]), ap(args[2], [pg])
+            if d is not None and v is not None:
+                r = ((good, v), (bad, d))
+        elif m == "map_or" and len(args) == 3:
+            v = ap(args[2], [pg])
+            if v is not None:
+                r = ((good, v), (bad, args[1]))
+        elif m == "unwrap_or" and len(args) == 2:
+            r = ((good, pg), (bad, args[1]))
+        elif m == "unwrap_or_else" and len(args) == 2:
+            d = ap(args[1], [] if opt else [pb])
+            if d is not None:
+                r = ((good, pg), (bad, d))
+        elif m == "unwrap_or_default" and len(args) == 1:
+            return None
+        if r is None:
+            return None
+        an.hint(X, "option::Option" if opt else "result::Result")
+        return T.mterm(X, r)
+
+    def apply_fn(self, an, st, f, argvals):
+        """the value of f(argvals) for a closure value or function pointer f; None when it cannot be described by a term"""
+        F = self.facts
+        if f.op == "agg" and f.args[0] == "closure":
+            lf = F.fn(f.args[1]) if isinstance(f.args[1], str) else None
+            if lf is None:
+                return None
+            ins = lf.get("sig", {}).get("inputs", []) if lf.get("sig") else []
+            body = lf["body"]
+            env_ty = norm(body["locals"][1]["ty"]) if len(body["locals"]) > 1 else ""
+            if "&mut" in env_ty:
+                return None
+            env = T.refval(f) if env_ty.startswith("&") else f
+            return self._apply_local(an, st, lf, [env] + list(argvals))
+        if f.op == "fnptr" or f.op == "zst":
+            q = norm(f.args[0]) if isinstance(f.args[0], str) else None
+            if q is None:
+                return None
+            q = q[len("fn item "):] if q.startswith("fn item ") else q
+            lf = F.fn(q)
+            if lf is not None:
+                if any("&mut" in x for x in lf.get("sig", {}).get("inputs", [])):
+                    return None
+                return self._apply_local(an, st, lf, list(argvals))
+            # tuple-variant / tuple-struct constructor used as a function
+            owner, _, vn = q.rpartition("::")
+            ad = F.adts.get(owner)
+            if ad is not None:
+                for i, v in enumerate(ad["variants"]):
+                    if v["name"] == vn and len(v["fields"]) == len(argvals):
+                        return T.agg("adt", owner, i, vn, list(argvals))
+            if q.startswith("<") or "{" in q:
+                return None
+            return T.call(q, (), [self._stabilise(an, st, a) for a in argvals])
+        return None
+
+    def _apply_local(self, an, st, lf, args):
+        if an.depth > 6:
+            return None
+        sub = self.analysis(lf)
+        if sub is None:
+            return None
+        rt = sub.ret_term()
+        if rt is not None and self._closed(rt):
+            inst = self.subst(an, st, rt, args)
+            if inst is not None:
+                return inst
+        tree = self.closed_tree(lf)
+        if tree is not None:
+            inst = self.subst(an, st, tree, args)
+            if inst is not None:
+                return inst
         return None
 
     def convert_err(self, an, st, callee, e):
